@@ -1,12 +1,45 @@
 import Driver.OpsCore
+import Driver.OpsSearch
+import Driver.OpsEval
+import Driver.OpsRoads
+import Driver.OpsAlloc
+import Driver.OpsFn
+import Driver.OpsC03
+import Driver.OpsSym
+import Driver.OpsBot
+import Driver.OpsText
+import Driver.OpsTEI
+import Driver.OpsFPA
+import Driver.OpsMCTS
+import Driver.OpsPTN
 import Driver.OpsSolvers
 namespace Driver
 
-def handlers : List Handler := [handleCore, handleSolvers]
+def handlers : List Handler := [
+  handleCore,
+  handleRoads,
+  handleAlloc,
+  handleFn,
+  handleC03,
+  handleSym,
+  handleEval,
+  handleBot,
+  handleText,
+  handleTEI,
+  handleFPA,
+  handleMCTS,
+  handlePTN,
+  handleSearch,
+  handleSolvers,
+]
 
 def step (st : St) (line : String) : St × String :=
   match (line.trimAscii.toString.splitOn " ").filter (· ≠ "") with
   | [] => (st, "")
+  | "case" :: _ =>
+    -- start of a stateful sequence: every module's session state is reset; only the basis table survives
+    -- (and the C06 cache of the last solved game graph, a pure function of its root position)
+    ({ basis := st.basis, solvers := st.solvers }, "ok")
   | op :: args =>
     let rec go : List Handler → St × String
       | [] => (st, "bad-op")
